@@ -615,6 +615,8 @@ def explore_scenario(args) -> Dict[str, Any]:
     stats = {"executions": 0, "deadlocks": 0, "steplimit": 0, "thread_exc": 0, "loop_callback_errors": 0, "decisions_max": 0,
              "preempted": 0}
     truncated = False
+    import logging
+    logging.getLogger("Rx").addHandler(logging.NullHandler())      # the library's own warnings are not part of the verdict
     with patches():
         for ds, info in explore(make_run_one(sc, form, wide), bound, max_sched, nrandom, seed):
             stats["executions"] += 1
